@@ -192,9 +192,36 @@ pub fn observe(out: &RunOut) -> Vec<Vec<u64>> {
 /// reason other than a pre-write refusal, the archive equals the one built from the accepted
 /// calls only; (3) if every call succeeded the archive is readable with the expected content.
 pub fn oracle_c09(calls: &[Vec<u64>], out: &RunOut) -> Result<(), String> {
+    // the property's own bookkeeping of which files are open (ids as the writer returned them) and of finalization:
+    // a call on an unknown or already ended file, and anything after a successful finalize, must be refused -
+    // whatever the announced size
+    let mut open: Vec<u64> = Vec::new();
+    let mut finalized = false;
+    // an add_file whose copy failed leaves a file open under an id this bookkeeping never saw
+    let mut unseen_open = false;
     for (c, r) in calls.iter().zip(&out.rows) {
         if r[0] == 2 {
             return Err(format!("call {c:?} panicked"));
+        }
+        let ok = r[0] == 0;
+        if c[0] == 3 && !ok {
+            unseen_open = true;
+        }
+        let must_refuse = match c[0] {
+            0 | 3 | 4 => finalized && c[0] != 4,
+            1 | 2 => finalized || (!open.contains(&c[1]) && !unseen_open),
+            _ => finalized || !open.is_empty(),
+        };
+        if must_refuse && ok {
+            return Err(format!("call {c:?} must be refused (file unknown or already ended, or the archive is finalized / has open files) but returned Ok"));
+        }
+        if ok {
+            match c[0] {
+                0 => open.push(r[1]),
+                2 => open.retain(|x| *x != c[1]),
+                5 => finalized = true,
+                _ => {}
+            }
         }
         let short = (c[0] == 1 && c[3] < c[2]) || (c[0] == 3 && c[3] < c[2]);
         if short && r[0] == 0 && c[2] > 0 {
